@@ -48,20 +48,23 @@ REQUIRED_THEOREMS = [
 ]
 RULE = ("case = session on one state object (kind) of 1..3 consecutive fit calls, each call = (starting_epoch, epochs, N, "
         "pos_batch_size, neg_batch_size in {None, 0, < pos, = pos, > pos, >= N}, data container form (tensor dtypes, non-contiguous "
-        "views, ndarray, list, tuple), callback identity list, callbacks container in {None, list, tuple, CallbackList, iterator} "
+        "views, ndarray, list, tuple), callback identity list, callbacks container in {None, list, tuple, CallbackList, CallbackList built by append/insert/+/__setitem__, iterator} "
         "(possibly empty; possibly the same container object as in the previous call), LambdaCallback/subclass mix, time flag, "
         "scheduler flag, flag assignment before the call (none / True / False), injected stop requests (callback identity, event) "
         "/ (during batch e,b), incl. periodic requests (every p-th epoch end / batch end)); epochs-starting_epoch in -2..3, N/batch "
-        "sizes giving 1..4 batches (incl. N < batch, N not divisible by pos or neg), 0..3 callbacks (an object may be listed "
+        "sizes giving 1..4 batches (incl. N = 1, N < batch, N not divisible by pos or neg), 0..3 callbacks (an object may be listed "
         "twice); thorough injects a stop at every event and every batch of the unstopped single call, quick a seeded subset; "
         "callback objects = LambdaCallback given a SUBSET of the six handlers (each handler a plain / defaulted-parameter / var-args "
         "function) or CallbackBase subclass overriding a subset of the methods; stop raised before the update (wrapped "
         "compute_batch_gradients) or after it (inside optimizer.step); N = 0 (no batches; positive state, neg = pos); plus a constructor "
         "stream: LambdaCallback(six arguments each None / callable with 0..4 parameters in 9 callable forms / non-callable) with the "
-        "expected outcome from the parameter count BY CONSTRUCTION; integer options (epochs, pos/neg_batch_size, k in 1..2, starting_epoch, "
-        "constructor sizes) as Python int / np.int64 / np.int32 / np.intp / np.uint8 / 0-d ndarray / 0-d tensor from the case's seeded stream "
+        "parameter count known BY CONSTRUCTION (accepted objects are judged by what their handlers run; rejection / exception type only counted); "
+        "integer options (epochs, pos/neg_batch_size, k in 1..2, starting_epoch, constructor sizes) as Python int / np.int64 / np.int32 / np.intp / "
+        "0-d ndarray / 0-d tensor (np.uint8 for k and the constructor sizes only) from the case's seeded stream "
         "(`iseed`), the same object again in a later call of the session when the value recurs; `time`, `progbar` (both truth values), `gpu` as "
         "bool / int / np.bool_ / numpy comparison result / 0-d ndarray / 0-d tensor (`fseed`); the first npos in 1..15 arguments of fit positional; "
+        "in a third of the cases every keyword whose value is the documented default is OMITTED; a counted-only stream of calls that raise inside "
+        "fit (no reference-basis row / no rows with neg != pos: outside the property, no verdict); "
         "non-trivial iff some call begins at least one epoch and (a stop is injected or there are >= 2 batches or >= 2 callbacks), or a "
         "constructor case with >= 1 non-None argument; distinct by hash of the case")
 EXTRA_TRUSTED = [
